@@ -1,5 +1,7 @@
 import Fabio.Lemmas.C05Main
 import Fabio.Lemmas.C05Del
+import Fabio.Lemmas.C05Rebuild
+import Fabio.Lemmas.C05Fix
 /-!
 C05 (round 4): no target comes from nowhere. Every target the spec machine (hence, by refinement, every table a
 command list builds) holds under some host and path carries the service, tags, options and (normalised) destination
@@ -147,5 +149,157 @@ theorem newTable_from {t : Table} (h : newTable env ds = .ok t) : AllFrom env ds
   have hr := C05Main.refines_spec (env := env) ds
   rw [h] at hr
   exact specRun_from hr.symm
+
+/-! ### where a route can be: every (host, path) with targets is the key of an add, accepted by `glob.Compile` -/
+
+/-- every inhabited (host, path) is `key d.src` of one of the adds, and both parts compile as globs -/
+def KeyOK (env : Env) (ds : List RouteDef) (S : Spec) : Prop :=
+  ∀ h p, S h p ≠ [] → ∃ d ∈ ds, d.cmd = .add ∧ (h, p) = key d.src ∧ env.globOK h = true ∧ env.globOK p = true
+
+theorem weigh_ne {ts : List Target} (h : weigh ts ≠ []) : ts ≠ [] := by
+  intro e; rw [e] at h; exact h C05Del.weigh_nil
+
+theorem dropSel_ne {sel : Target → Bool} {ts : List Target} (h : dropSel sel ts ≠ []) : ts ≠ [] := by
+  intro e
+  rw [e] at h
+  exact h (by unfold dropSel; simp [C05Del.weigh_nil])
+
+theorem keyOK_upd_shrink {S : Spec} {h p : Str} {ts : List Target} (hS : KeyOK env ds S) (hts : ts ≠ [] → S h p ≠ []) :
+    KeyOK env ds (upd S h p ts) := by
+  intro h' p' hne
+  unfold upd at hne
+  split at hne
+  · rename_i heq
+    obtain ⟨rfl, rfl⟩ := heq
+    exact hS _ _ (hts hne)
+  · exact hS h' p' hne
+
+theorem keyOK_step {S S' : Spec} {d : RouteDef} (hd : d ∈ ds) (hS : KeyOK env ds S)
+    (h : specApply env S d = .ok S') : KeyOK env ds S' := by
+  unfold specApply at h
+  cases hc : d.cmd with
+  | other s => rw [hc] at h; cases h
+  | add =>
+    rw [hc] at h
+    simp only at h
+    unfold specAdd at h
+    split at h
+    · cases h
+    · split at h
+      · cases h
+      · split at h
+        · cases h
+        · dsimp only at h
+          split at h
+          · cases h
+          · rename_i hgh
+            split at h
+            · cases h
+            · rename_i hgp
+              split at h
+              · injection h with h; subst h; exact hS
+              · injection h with h
+                subst h
+                intro h' p' hne
+                unfold upd at hne
+                split at hne
+                · rename_i heq
+                  obtain ⟨rfl, rfl⟩ := heq
+                  have hgh' : env.globOK (key d.src).1 = true := by simpa using hgh
+                  by_cases hemp : (S (key d.src).1 (key d.src).2) = []
+                  · have hgp' : env.globOK (key d.src).2 = true := by
+                      rw [hemp] at hgp
+                      simpa using hgp
+                    exact ⟨d, hd, hc, rfl, hgh', hgp'⟩
+                  · exact hS _ _ hemp
+                · exact hS h' p' hne
+  | del =>
+    rw [hc] at h
+    simp only at h
+    unfold specDel at h
+    split at h
+    · injection h with h; subst h
+      intro h' p' hne
+      exact hS h' p' (dropSel_ne hne)
+    · split at h
+      · injection h with h; subst h
+        intro h' p' hne
+        exact hS h' p' (dropSel_ne hne)
+      · split at h
+        · injection h with h; subst h
+          exact keyOK_upd_shrink hS dropSel_ne
+        · split at h
+          · cases h
+          · injection h with h; subst h
+            exact keyOK_upd_shrink hS dropSel_ne
+  | weight =>
+    rw [hc] at h
+    simp only at h
+    unfold specWeigh at h
+    dsimp only at h
+    split at h
+    · cases h
+    · split at h
+      · cases h
+      · injection h with h; subst h
+        apply keyOK_upd_shrink hS
+        intro hne
+        have := weigh_ne hne
+        intro e
+        rw [e] at this
+        exact this rfl
+
+theorem keyOK_fold (rest : List RouteDef) : ∀ {S S' : Spec}, (∀ d ∈ rest, d ∈ ds) → KeyOK env ds S →
+    rest.foldlM (specApply env) S = .ok S' → KeyOK env ds S' := by
+  induction rest with
+  | nil =>
+    intro S S' _ hS h
+    simp only [List.foldlM_nil, pure, Except.pure] at h
+    injection h with h; subst h; exact hS
+  | cons d l ih =>
+    intro S S' hsub hS h
+    rw [List.foldlM_cons] at h
+    cases h1 : specApply env S d with
+    | error e => rw [h1] at h; cases h
+    | ok S1 =>
+      rw [h1] at h
+      exact ih (fun x hx => hsub x (List.mem_cons_of_mem _ hx)) (keyOK_step (hsub d (by simp)) hS h1) h
+
+theorem newTable_keyOK {t : Table} (h : newTable env ds = .ok t) : KeyOK env ds (abs t) := by
+  have hr := C05Main.refines_spec (env := env) ds
+  rw [h] at hr
+  exact keyOK_fold ds (fun _ hd => hd) (fun _ _ hne => absurd rfl hne) hr.symm
+
+/-- the two structural fields of `RebuildOK` hold for every table a command list builds; what is left are the
+property's own hypothesis (no two targets of a route with the same service, URL, tags and four-decimal weight) and
+the assumption about `net/url` -/
+theorem rebuildOK_of_built {t : Table} (h : newTable env ds = .ok t)
+    (hk : ∀ kv ∈ t, ∀ r ∈ kv.2, (r.targets.map C05Rebuild.dupKey).Nodup)
+    (hu : ∀ kv ∈ t, ∀ r ∈ kv.2, ∀ tg ∈ r.targets, tg.url ≠ [] ∧ env.normURL tg.url = some tg.url) :
+    C05Rebuild.RebuildOK env t := by
+  have hg := C05Main.good_newTable h
+  have hkey := newTable_keyOK h
+  have hroute : ∀ kv ∈ t, ∀ r ∈ kv.2, ∃ d ∈ ds, d.cmd = .add ∧ (r.host, r.path) = key d.src ∧
+      env.globOK r.host = true ∧ env.globOK r.path = true := by
+    intro kv hkv r hr
+    obtain ⟨k, rs⟩ := kv
+    have hget : t.get k = rs := C05Fix.get_of_mem hg.inv.wf hkv
+    have hr' : r ∈ t.get k := by rw [hget]; exact hr
+    obtain ⟨_, hhost, habs⟩ := C05Fix.of_mem_get hg.inv.wf hr'
+    have hne : abs t r.host r.path ≠ [] := by
+      rw [hhost, habs]; exact (hg.inv.noEmpty _ hkv).2 r hr
+    exact hkey _ _ hne
+  refine ⟨hk, hu, ?_, ?_⟩
+  · intro kv hkv
+    refine ⟨hg.hosts kv hkv, ?_⟩
+    intro r hr
+    obtain ⟨d, _, _, _, _, hp⟩ := hroute kv hkv r hr
+    exact hp
+  · intro kv hkv r hr
+    obtain ⟨d, _, _, he, _, _⟩ := hroute kv hkv r hr
+    have h1 : r.host = (key d.src).1 := congrArg Prod.fst he
+    have h2 : r.path = (key d.src).2 := congrArg Prod.snd he
+    rw [h1, h2]
+    exact C05Rebuild.src_of_key d.src
 
 end Fabio.Lemmas.C05From
